@@ -15,6 +15,7 @@ fn main() {
     let code = match cmd {
         "ring-replay" => ring::cmd_replay(rest),
         "ring-trace" => ring::cmd_trace(rest),
+        "repeat-replay" => ring::cmd_repeat_replay(rest),
         "bench" => bench::cmd_bench(rest),
         "graph-run" => graphs::cmd_run(rest),
         "mtgraph-run" => graphs::cmd_mt_run(rest),
